@@ -109,6 +109,11 @@ func runCheck(repo, prop, tier string) int {
 	if tier == "thorough" {
 		timeout = 60
 	}
+	type unverif struct {
+		key, why string
+		fc       *FuncContract
+	}
+	var unverifiable []unverif
 	var items []vcObl
 	var funcs []string
 	var harness []string
@@ -163,8 +168,14 @@ func runCheck(repo, prop, tier string) int {
 		}
 		vc, err := w.VerifyFunc(key)
 		if err != nil {
+			// the function left the verifiable subset: every obligation of its
+			// contract for this property is undischarged
 			harness = append(harness, err.Error())
+			unverifiable = append(unverifiable, unverif{key, err.Error(), fc})
 			continue
+		}
+		if len(vc.errs) > 0 {
+			unverifiable = append(unverifiable, unverif{key, strings.Join(vc.errs, "; "), fc})
 		}
 		nvc++
 		if fc.Opts["refines"] != "" {
@@ -294,6 +305,22 @@ func runCheck(repo, prop, tier string) int {
 		fmt.Println(line)
 		violations = append(violations, x.Obl.Name)
 		undis = append(undis, map[string]any{"obligation": x.Obl.Name, "status": x.Status, "solver": x.Solver, "pos": x.Obl.Pos})
+	}
+	for _, u := range unverifiable {
+		// report once per function: the contract can no longer be checked against the code
+		name := "unverifiable/" + u.key[strings.Index(u.key, "::")+2:]
+		nObl++
+		dir := filepath.Join(verifDir(), "replays", prop)
+		os.MkdirAll(dir, 0o755)
+		path := filepath.Join(dir, sanitize(name)+".json")
+		rec := map[string]any{"property": prop, "obligation": name, "status": "undischarged",
+			"reason": "the contract of this function can no longer be checked against the code (construct outside the verifiable subset, or a contract clause that no longer binds): " + u.why}
+		b, _ := json.MarshalIndent(rec, "", " ")
+		os.WriteFile(path, b, 0o644)
+		fmt.Printf("  obligation %s undischarged: %s\n", name, trunc(u.why, 300))
+		fmt.Printf("VIOLATION property=%s replay=%s no-failing-input-found\n", prop, path)
+		violations = append(violations, name)
+		undis = append(undis, map[string]any{"obligation": name, "status": "unverifiable", "reason": u.why})
 	}
 	var assumptions []string
 	assumptions = append(assumptions, generalAssumptions...)
